@@ -482,9 +482,9 @@ func init() {
 	vfRegister(&vfProp{
 		ID: "C21", Level: "exploration", ReplayClass: "decision-exact",
 		Gen: c21Gen, Run: c21Run,
-		Rule: "case = a real PeerConnection pair on the simulated network brought to one of 5 points of its life (nothing negotiated / offer applied and gathering / ICE+DTLS in progress / connected / data and media flowing), then 1-4 goroutines call Close or GracefulClose on one peer at fake-time offsets 0-1500 ms, optionally while another goroutine keeps calling CreateDataChannel/CreateOffer+SetLocalDescription/AddTransceiverFromKind/GetStats and while the peer's event handlers take 0-700 ms of fake time; afterwards every mutating call is tried; non-trivial = all setup steps succeeded, distinct = hash of the recorded history",
-		Real: []string{"both PeerConnections with real ICE, DTLS, SCTP, SRTP, operations queue", "vnet"},
+		Rule:   "case = a real PeerConnection pair on the simulated network brought to one of 5 points of its life (nothing negotiated / offer applied and gathering / ICE+DTLS in progress / connected / data and media flowing), then 1-4 goroutines call Close or GracefulClose on one peer at fake-time offsets 0-1500 ms, optionally while another goroutine keeps calling CreateDataChannel/CreateOffer+SetLocalDescription/AddTransceiverFromKind/GetStats and while the peer's event handlers take 0-700 ms of fake time; afterwards every mutating call is tried; non-trivial = all setup steps succeeded, distinct = hash of the recorded history",
+		Real:   []string{"both PeerConnections with real ICE, DTLS, SCTP, SRTP, operations queue", "vnet"},
 		Shrink: []string{"closers"},
-		Stub: []string{"network: vnet + seeded per-datagram fate", "signaling: in-process", "goroutine attribution: pprof labels + runtime goroutine profile"},
+		Stub:   []string{"network: vnet + seeded per-datagram fate", "signaling: in-process", "goroutine attribution: pprof labels + runtime goroutine profile"},
 	})
 }
